@@ -18,7 +18,7 @@ HEADER = ("From Coq Require Import NArith List String.\nImport ListNotations.\n"
 
 MODEL_TARGETS = ["model/CasesBoard.vo", "model/CasesSpec.vo"]
 SPEC_HEADER = HEADER.replace("model.CasesBoard.", "model.CasesBoard model.CasesSpec.")
-SPEC_NAMES = ["spec.legal_set", "spec.nodup", "spec.check_white", "spec.check_black", "spec.apply", "spec.flags", "spec.wf"]
+SPEC_NAMES = ["spec.legal_set", "spec.nodup", "spec.check_white", "spec.check_black", "spec.apply", "spec.flags", "spec.wf", "info.wf_full", "spec.wf_full_preserved"]
 
 
 def norm(x):
@@ -300,12 +300,16 @@ def run(tier, seed):
             return {"error": "spec evaluation failed", "log": lg2[-3000:]}
         divs = []
         spec_nodes = 0
+        wf_full_nodes = 0
         for i, sp in enumerate(spec):
             if sp is None:
                 continue
             for k, flags in enumerate(sp[1]):
                 spec_nodes += 1
                 for nm, fl in zip(SPEC_NAMES, flags):
+                    if nm == "info.wf_full":
+                        wf_full_nodes += fl
+                        continue
                     if fl != 1:
                         divs.append([i, {"field": nm, "node": k, "engine": None, "model": "model disagrees with spec/Rules.v"}])
         selfc = []
@@ -332,7 +336,7 @@ def run(tier, seed):
         res = {"cases": cases, "divergences": divs, "self": selfc,
                "stats": {"cases": len(cases), "nodes": nodes, "distinct_positions": len(distinct),
                          "moves_probed": moves_probed, "features": feat, "case_kinds": kinds,
-                         "spec_nodes": spec_nodes,
+                         "spec_nodes": spec_nodes, "wf_full_nodes": wf_full_nodes,
                          "engine_s": round(t1 - t0, 1), "model_s": round(t2 - t1, 1), "spec_s": round(t3 - t2, 1)},
                "sample": {"case": cases[-1], "engine_first_node_state": eng[-1]["nodes"][0][0] if not eng[-1].get("panic") else None}}
         with open(cpath + ".tmp", "w") as f:
